@@ -14,7 +14,22 @@ import (
 //	kind 0 untyped nil, 1 typed nil pointer, 2 invalid nullable  -> NULL
 //	kind 3 string, 4 []byte (non-nil, possibly empty), 6 *string  -> those bytes
 //	kind 5 a value no codec accepts                               -> error
+// vLongLens: value lengths around the sizes at which buffers and length
+// fields commonly change behaviour.
+var vLongLens = []int{59, 60, 61, 62, 63, 64, 65, 66, 127, 128, 129, 255, 256, 257, 4095, 4096, 4097}
+
 func vValue(maxLen int) (src any, null bool, payload []byte, unenc bool) {
+	if vParam("LONGVALS", 0) > 0 && nondetBool() {
+		// a long text value: n-1 concrete bytes and one symbolic byte at the end
+		n := vLongLens[vChoose(len(vLongLens))]
+		b := make([]byte, n)
+		for i := range b {
+			b[i] = 'v'
+		}
+		b[n-1] = nondetByte()
+		vReach("long-value")
+		return string(b), false, b, false
+	}
 	switch vChoose(7) {
 	case 0:
 		return nil, true, nil, false
